@@ -6,12 +6,14 @@ import zlib
 import numpy as np
 
 from sim import filgen
-from sim.core import open_reader, SimLivelock, Violation
+from sim.core import nint, open_reader, SimLivelock, Violation
 from sim.disk import SimDisk
 
 ID = "C02"
+VARY_ARGFORM = True  # integer call arguments also arrive as numpy integer scalars
 SHRINK_LISTS = ("ops", "faults", ("files", "nsamps"))
 SHRINK_MIN = {"nchans": 1, "nbits": 1}
+SHRINK_SIMPLE = {"argform": "int"}
 POISON = 0xA5
 
 
@@ -217,17 +219,17 @@ def execute(sc, ctx) -> None:
             result = None
             try:
                 if kind == "seek0":
-                    fr.seek(op["off"], 0)
+                    fr.seek(nint(op["off"]), 0)
                 elif kind == "seek1":
-                    fr.seek(op["off"], 1)
+                    fr.seek(nint(op["off"]), 1)
                 elif kind == "cread":
-                    result = fr.cread(op["n"])
+                    result = fr.cread(nint(op["n"]))
                 elif kind == "creadinto":
                     rb = bytearray([POISON]) * op["n"]
                     ub = bytearray([POISON]) * (op["n"] * bitfact) if nbits < 8 else None
                     result = (fr.creadinto(rb, ub), rb, ub)
                 elif kind == "read_block":
-                    result = reader.read_block(op["start"], op["nsamps"])
+                    result = reader.read_block(nint(op["start"]), nint(op["nsamps"]))
                 else:
                     raise AssertionError(kind)
             except SimLivelock as e:
